@@ -649,7 +649,8 @@ func c10MasterGen(o *vk.Out) mgrIn {
 	}
 	in.Nodes[0].SS = []string{"", "off", "on", "count2", "off_count2"}[r.Intn(5)]
 	in.Nodes[0].Offline = r.Intn(4) == 0
-	in.Nodes[0].ReadOnly = r.Intn(4) == 0
+	in.Nodes[0].ReadOnly = r.Intn(3) == 0
+	in.Nodes[0].ROOnly = in.Nodes[0].ReadOnly && r.Intn(2) == 0
 	// the published list: the master alone (it was alone for a while), everything, or missing
 	switch r.Intn(3) {
 	case 0:
